@@ -442,12 +442,16 @@ func (s *Sim) doAction(a *Action) {
 		o.startCalls++
 		stopsAtCall := o.stopCalls
 		s.mu.Unlock()
-		sctx, scancel := context.WithCancel(context.Background())
+		base := context.Background()
+		if o.in.spec.CorrID {
+			base = context.WithValue(base, "correlation_id", "run-of-"+o.in.spec.ID) //nolint: the library looks this string key up
+		}
+		sctx, scancel := context.WithCancel(base)
 		// the run's context ends by deadline if the plan's next cancellation of this instance says so
 		for i := range s.plan.Timeline {
 			if b := &s.plan.Timeline[i]; b.Kind == ActCancelCtx && b.Inst == a.Inst && b.ByDeadline && b.At > s.now() {
 				scancel()
-				sctx, scancel = context.WithDeadline(context.Background(), s.t0.Add(b.At+1)) // 1ns after the action has recorded the call
+				sctx, scancel = context.WithDeadline(base, s.t0.Add(b.At+1)) // 1ns after the action has recorded the call
 				break
 			}
 		}
